@@ -10,6 +10,7 @@ buffer sizes after EVERY read are compared with the model; zlib.crc32/compute_cr
 import json, os, zlib
 from vf import core
 from vf import framing_impl as F
+from vf import marshal_validation as MV
 
 META = {
     'technique': 'Coq proof (parser invariants over any segmentation x any chunk list; GF(2) linearity of the CRC-24 step and injectivity of the '
@@ -20,7 +21,9 @@ META = {
                   'C06_detects_header_flip, C06_detects_payload_flip (every bit position, payload of any length, any chunking, anything after the segment '
                   '-> CrcMismatch, nothing delivered), C06_crc24_single_bit, C06_crc32_single_byte: all proved in Coq over Model/Segment.v (the REPAIRED code), '
                   'compressor pair abstract; the model is compared with the real SegmentCodec/Connection after every read.',
-    'level_note': 'Tie is correspondence (C); compressor pair abstract in the proofs (decompress (compress x) = x), toy RLE pair in the harness; '
+    'level_note': 'Tie is (T) for compute_crc24 / SegmentCodec.encode_header / decode_header / SegmentHeader.segment_length (regenerated from '
+                  'cassandra/segment.py into Gen/SegmentGen.v; C06_source_* prove them equal to the hand model for every input) and correspondence (C) '
+                  'for the rest (payload path, process_io_buffer loop); compressor pair abstract in the proofs (decompress (compress x) = x), toy RLE pair in the harness; '
                   'zlib.crc32 modelled bitwise and compared; behaviour after defunct not modelled; lz4 itself not covered.',
     'design_ref': 'DESIGN.md section 4, C06',
 }
@@ -250,8 +253,19 @@ def enc_cases(ctx, rng, n):
     return out
 
 
+def gen(ctx):
+    # (T) cassandra/segment.py (compute_crc24, header codec, segment_length) regenerated into coq/Gen/SegmentGen.v;
+    # Proofs/C06_bridge.v proves the regenerated functions equal to the hand model used by the C06 theorems
+    return MV.gen(ctx, parts=('segment',))
+
+
 def run(ctx):
+    gen(ctx)
     ok = ctx.prove('Props/C06.v')
+    try:
+        MV.validate(ctx, parts=('segment',))
+    except Exception as e:
+        ctx.proof_broken.append(('T-segment validation', repr(e)[-400:]))
     if ctx.tier == 'thorough' and ok:
         ctx.coqchk('Props/C06.v')
     rng = ctx.rng
